@@ -100,6 +100,7 @@ class Env:
         self.notes = []
         self.backend = None
         self._labels = set()
+        self.sym_only = False      # obligations stated while True exist only in symbolic mode (no twin/validation)
 
     # ---- symbols ------------------------------------------------------------------------------
     def sym(self, name, positive=False, nonneg=False, lo=None, hi=None):
@@ -191,7 +192,7 @@ class Env:
             else:
                 ob.delta = abs(i - o)
                 ob.value_ok = bool(ob.delta <= REL_TOL * max(abs(o), abs(i), 1) + ABS_TOL)
-        ob.validate = validate
+        ob.validate = validate and not self.sym_only
         self.obligations.append(ob)
         return ob
 
@@ -217,6 +218,7 @@ class Env:
                 c = not c
             ob = Obligation(label, "holds", key=key)
             ob.value_ok = c
+        ob.validate = not self.sym_only
         self.obligations.append(ob)
         return ob
 
@@ -225,6 +227,7 @@ class Env:
         ob = Obligation(label, "fail", goal=z3.BoolVal(False) if self.mode == "sym" else None, key=key, msg=msg)
         if self.mode != "sym":
             ob.value_ok = False
+        ob.validate = not self.sym_only
         self.obligations.append(ob)
         return ob
 
